@@ -279,15 +279,17 @@ class Exec:
             # the caller gives up waiting for its last pending kill (asyncio.wait_for(proc.kill(), t) timing out cancels
             # the future that kill() returned): that request is withdrawn, the process stays controllable
             done = False
+            target = ev[1] if len(ev) > 1 else 'kill'
             for rec in reversed(self.world.futs):
                 fut = rec.get('_fut')
-                if rec['what'] == 'kill' and fut is not None and not fut.done():
+                if rec['what'] == target and fut is not None and not fut.done():
                     with self.loop.as_running():
                         fut.cancel()
                     for other in self.world.futs:
                         # every kill request that is pending on this live process - repeated kill() calls and the one
                         # a cancelled process future turns into - is carried by this one action: they share its fate
-                        if other['what'] in ('kill', 'cancel'):
+                        # (the same holds for repeated pause() calls)
+                        if (target == 'kill' and other['what'] in ('kill', 'cancel')) or (target == 'pause' and other['what'] == 'pause' and other.get('_fut') is fut):
                             other['withdrawn'] = True
                     done = True
                     break
